@@ -535,6 +535,7 @@ func runCN(id int, c *cnCase, via string) cnLine {
 		if term {
 			// positive deadline: every channel obtained so far should close promptly
 			deadline := time.Now().Add(600 * time.Millisecond)
+			closedAll := false
 			for time.Now().Before(deadline) {
 				mu.Lock()
 				all := true
@@ -545,9 +546,13 @@ func runCN(id int, c *cnCase, via string) cnLine {
 				}
 				mu.Unlock()
 				if all {
+					closedAll = true
 					break
 				}
 				time.Sleep(500 * time.Microsecond)
+			}
+			if !closedAll {
+				cnExpired++
 			}
 		}
 		mu.Lock()
